@@ -4,7 +4,7 @@ From Coq Require Import String.
 Require Import OV.Base.Bytes OV.Base.PyInt OV.Base.Str OV.Base.Regex OV.Base.C16_Py.
 Require Import OV.Gen.C16_Aliases OV.Gen.C16_Fold OV.Gen.C16_Slug OV.Gen.C16_Code.
 Require Import OV.Model.C16 OV.Model.C16_Codecs.
-Require Import OV.Proofs.C16 OV.Proofs.C16_Slug OV.Proofs.C16_Codecs.
+Require Import OV.Gen.C16_Charmaps OV.Proofs.C16 OV.Proofs.C16_Slug OV.Proofs.C16_Utf16 OV.Proofs.C16_Codecs.
 Open Scope N_scope.
 
 (* round trip through any ASCII spelling, in any letter case, of a name of one of the three
@@ -63,3 +63,162 @@ Proof. apply to_slug_idempotent; [apply world3_fold_ascii_out|apply world3_fold_
 Theorem world3_slug_str_total d s incoming errors :
   exists o, to_slug (world3 d) (PStr s) incoming errors = COk o.
 Proof. eexists. reflexivity. Qed.
+
+(* ================= transcoding between the concrete codecs ================= *)
+
+Lemma lookup3_lower_some name c : forallb is_ascii name = true -> lookup3 name = Some c -> lookup3 (py_lower name) = Some c.
+Proof. intros Ha H. rewrite (lookup3_lower _ Ha). exact H. Qed.
+
+(* decode with codec a, encode with codec b: what the transcoding branch computes *)
+Lemma world3_transcode_eval d b incoming encoding errors cin cout t :
+  b <> [] ->
+  forallb is_ascii (resolve_incoming (world3 d) incoming) = true -> forallb is_ascii encoding = true ->
+  lookup3 (resolve_incoming (world3 d) incoming) = Some cin -> lookup3 encoding = Some cout ->
+  dec3 cin b errors = COk t ->
+  transcode (world3 d) b incoming encoding errors = cmap PBytes (enc3 cout t errors).
+Proof.
+  intros Hb Hai Hae Hcin Hcout Hdec. unfold transcode, safe_decode, decode_with_fallback.
+  rewrite resolve_some by (apply py_lower_nonempty; exact (lookup3_nonempty _ _ Hcin)).
+  unfold bytes_decode. destruct b as [|x b']; [exfalso; apply Hb; reflexivity|].
+  cbn [lookup dec world3]. rewrite (lookup3_lower_some _ _ Hai Hcin), Hdec. cbn [cbind].
+  unfold str_encode. cbn [lookup enc world3]. rewrite (lookup3_lower_some _ _ Hae Hcout). reflexivity.
+Qed.
+
+(* safe_encode(bytes, incoming=a, encoding=b) = encode_b(decode_a(bytes)) when the lower-cased names differ *)
+Theorem world3_transcodes d b incoming encoding errors cin cout t :
+  b <> [] ->
+  forallb is_ascii (resolve_incoming (world3 d) incoming) = true -> forallb is_ascii encoding = true ->
+  py_lower encoding <> py_lower (resolve_incoming (world3 d) incoming) ->
+  lookup3 (resolve_incoming (world3 d) incoming) = Some cin -> lookup3 encoding = Some cout ->
+  dec3 cin b errors = COk t ->
+  safe_encode (world3 d) (PBytes b) incoming encoding errors = cmap PBytes (enc3 cout t errors).
+Proof.
+  intros Hb Hai Hae Hne Hcin Hcout Hdec. rewrite safe_encode_transcodes by assumption.
+  apply (world3_transcode_eval d b incoming encoding errors cin cout t); assumption.
+Qed.
+
+(* transcoding from a codec to itself, through any two names of it, is the identity on valid input —
+   for the seven codecs without BOM *)
+Lemma world3_transcode_same_codec d b incoming encoding errors c t :
+  b <> [] -> all_bytes b = true ->
+  forallb is_ascii (resolve_incoming (world3 d) incoming) = true -> forallb is_ascii encoding = true ->
+  lookup3 (resolve_incoming (world3 d) incoming) = Some c -> lookup3 encoding = Some c ->
+  canonical3 c = true ->
+  dec3 c b strict_name = COk t ->
+  transcode (world3 d) b incoming encoding errors = COk (PBytes b).
+Proof.
+  intros Hb Hall Hai Hae Hcin Hcout Hcan Hdec.
+  rewrite (world3_transcode_eval d b incoming encoding errors c c t Hb Hai Hae Hcin Hcout).
+  - pose proof (enc3_after_dec3 c b t Hcan Hall Hdec) as He.
+    pose proof (world3_enc_policy_irrelevant d c t errors b He) as He'. change (enc3 c t errors = COk b) in He'.
+    rewrite He'. reflexivity.
+  - exact (world3_dec_policy_irrelevant d c b errors t Hdec).
+Qed.
+
+(* The "same codec" shortcut compares lower-cased NAMES.  Whenever it fires on valid input of a BOM-less
+   codec it returns exactly what the transcoding would have returned. *)
+Theorem world3_shortcut_sound d b incoming encoding errors c t :
+  b <> [] -> all_bytes b = true ->
+  forallb is_ascii (resolve_incoming (world3 d) incoming) = true -> forallb is_ascii encoding = true ->
+  py_lower encoding = py_lower (resolve_incoming (world3 d) incoming) ->
+  lookup3 encoding = Some c -> canonical3 c = true ->
+  dec3 c b strict_name = COk t ->
+  safe_encode (world3 d) (PBytes b) incoming encoding errors = COk (PBytes b) /\
+  transcode (world3 d) b incoming encoding errors = COk (PBytes b).
+Proof.
+  intros Hb Hall Hai Hae Heq Hc Hcan Hdec. split.
+  - apply safe_encode_bytes_same_codec_id. exact Heq.
+  - assert (Hcin : lookup3 (resolve_incoming (world3 d) incoming) = Some c).
+    { rewrite <- (lookup3_lower _ Hai), <- Heq, (lookup3_lower _ Hae). exact Hc. }
+    apply (world3_transcode_same_codec d b incoming encoding errors c t); assumption.
+Qed.
+
+(* For 'utf-16' / 'utf-32' (BOM written, either byte order read) the shortcut is NOT what transcoding gives:
+   transcoding re-encodes the same text with a native-order BOM *)
+Theorem world3_shortcut_bom d b incoming encoding errors c t :
+  b <> [] -> all_bytes b = true ->
+  forallb is_ascii (resolve_incoming (world3 d) incoming) = true -> forallb is_ascii encoding = true ->
+  lookup3 (resolve_incoming (world3 d) incoming) = Some c -> lookup3 encoding = Some c ->
+  dec3 c b strict_name = COk t ->
+  exists b', transcode (world3 d) b incoming encoding errors = COk (PBytes b') /\
+             forall e, dec3 c b' e = COk t.
+Proof.
+  intros Hb Hall Hai Hae Hcin Hcout Hdec.
+  destruct (enc3_dec3_roundtrip c t (dec3_strict_representable c b t Hall Hdec)) as (b' & He & Hd).
+  exists b'. split; [|exact Hd].
+  rewrite (world3_transcode_eval d b incoming encoding errors c c t Hb Hai Hae Hcin Hcout).
+  - rewrite He. reflexivity.
+  - exact (world3_dec_policy_irrelevant d c b errors t Hdec).
+Qed.
+
+(* names that differ after lower-casing but denote the same BOM-less codec ('utf-8' / 'utf8', 'latin-1' / 'l1'):
+   safe_encode transcodes, and the result equals the input for valid input *)
+Theorem world3_alias_transcode_identity d b incoming encoding errors c t :
+  b <> [] -> all_bytes b = true ->
+  forallb is_ascii (resolve_incoming (world3 d) incoming) = true -> forallb is_ascii encoding = true ->
+  py_lower encoding <> py_lower (resolve_incoming (world3 d) incoming) ->
+  lookup3 (resolve_incoming (world3 d) incoming) = Some c -> lookup3 encoding = Some c ->
+  canonical3 c = true ->
+  dec3 c b strict_name = COk t ->
+  safe_encode (world3 d) (PBytes b) incoming encoding errors = COk (PBytes b).
+Proof.
+  intros Hb Hall Hai Hae Hne Hcin Hcout Hcan Hdec. rewrite safe_encode_transcodes by assumption.
+  apply (world3_transcode_same_codec d b incoming encoding errors c t); assumption.
+Qed.
+
+(* ================= the round trip, codec by codec ================= *)
+Lemma world3_roundtrip_utf8 d e t incoming0 errors :
+  forallb is_ascii e = true -> lookup3 e = Some CUtf8 -> valid_text t = true ->
+  exists b, safe_encode (world3 d) (PStr t) incoming0 e errors = COk (PBytes b) /\
+            safe_decode (world3 d) (PBytes b) (Some e) errors = COk t.
+Proof. intros Ha Hl Hr. exact (world3_roundtrip d e CUtf8 t incoming0 errors Ha Hl Hr). Qed.
+Lemma world3_roundtrip_latin1 d e t incoming0 errors :
+  forallb is_ascii e = true -> lookup3 e = Some CLatin1 -> forallb (fun x => x <? 256) t = true ->
+  exists b, safe_encode (world3 d) (PStr t) incoming0 e errors = COk (PBytes b) /\
+            safe_decode (world3 d) (PBytes b) (Some e) errors = COk t.
+Proof. intros Ha Hl Hr. exact (world3_roundtrip d e CLatin1 t incoming0 errors Ha Hl Hr). Qed.
+Lemma world3_roundtrip_ascii d e t incoming0 errors :
+  forallb is_ascii e = true -> lookup3 e = Some CAscii -> forallb (fun x => x <? 128) t = true ->
+  exists b, safe_encode (world3 d) (PStr t) incoming0 e errors = COk (PBytes b) /\
+            safe_decode (world3 d) (PBytes b) (Some e) errors = COk t.
+Proof. intros Ha Hl Hr. exact (world3_roundtrip d e CAscii t incoming0 errors Ha Hl Hr). Qed.
+Lemma world3_roundtrip_utf16 d e t incoming0 errors :
+  forallb is_ascii e = true -> lookup3 e = Some CUtf16 -> valid_text t = true ->
+  exists b, safe_encode (world3 d) (PStr t) incoming0 e errors = COk (PBytes b) /\
+            safe_decode (world3 d) (PBytes b) (Some e) errors = COk t.
+Proof. intros Ha Hl Hr. exact (world3_roundtrip d e CUtf16 t incoming0 errors Ha Hl Hr). Qed.
+Lemma world3_roundtrip_utf16le d e t incoming0 errors :
+  forallb is_ascii e = true -> lookup3 e = Some CUtf16LE -> valid_text t = true ->
+  exists b, safe_encode (world3 d) (PStr t) incoming0 e errors = COk (PBytes b) /\
+            safe_decode (world3 d) (PBytes b) (Some e) errors = COk t.
+Proof. intros Ha Hl Hr. exact (world3_roundtrip d e CUtf16LE t incoming0 errors Ha Hl Hr). Qed.
+Lemma world3_roundtrip_utf16be d e t incoming0 errors :
+  forallb is_ascii e = true -> lookup3 e = Some CUtf16BE -> valid_text t = true ->
+  exists b, safe_encode (world3 d) (PStr t) incoming0 e errors = COk (PBytes b) /\
+            safe_decode (world3 d) (PBytes b) (Some e) errors = COk t.
+Proof. intros Ha Hl Hr. exact (world3_roundtrip d e CUtf16BE t incoming0 errors Ha Hl Hr). Qed.
+Lemma world3_roundtrip_utf32 d e t incoming0 errors :
+  forallb is_ascii e = true -> lookup3 e = Some CUtf32 -> valid_text t = true ->
+  exists b, safe_encode (world3 d) (PStr t) incoming0 e errors = COk (PBytes b) /\
+            safe_decode (world3 d) (PBytes b) (Some e) errors = COk t.
+Proof. intros Ha Hl Hr. exact (world3_roundtrip d e CUtf32 t incoming0 errors Ha Hl Hr). Qed.
+Lemma world3_roundtrip_utf32le d e t incoming0 errors :
+  forallb is_ascii e = true -> lookup3 e = Some CUtf32LE -> valid_text t = true ->
+  exists b, safe_encode (world3 d) (PStr t) incoming0 e errors = COk (PBytes b) /\
+            safe_decode (world3 d) (PBytes b) (Some e) errors = COk t.
+Proof. intros Ha Hl Hr. exact (world3_roundtrip d e CUtf32LE t incoming0 errors Ha Hl Hr). Qed.
+Lemma world3_roundtrip_utf32be d e t incoming0 errors :
+  forallb is_ascii e = true -> lookup3 e = Some CUtf32BE -> valid_text t = true ->
+  exists b, safe_encode (world3 d) (PStr t) incoming0 e errors = COk (PBytes b) /\
+            safe_decode (world3 d) (PBytes b) (Some e) errors = COk t.
+Proof. intros Ha Hl Hr. exact (world3_roundtrip d e CUtf32BE t incoming0 errors Ha Hl Hr). Qed.
+Lemma world3_roundtrip_cp1252 d e t incoming0 errors :
+  forallb is_ascii e = true -> lookup3 e = Some CCp1252 -> charmap_repr cp1252_table t = true ->
+  exists b, safe_encode (world3 d) (PStr t) incoming0 e errors = COk (PBytes b) /\
+            safe_decode (world3 d) (PBytes b) (Some e) errors = COk t.
+Proof. intros Ha Hl Hr. exact (world3_roundtrip d e CCp1252 t incoming0 errors Ha Hl Hr). Qed.
+Lemma world3_roundtrip_koi8r d e t incoming0 errors :
+  forallb is_ascii e = true -> lookup3 e = Some CKoi8R -> charmap_repr koi8r_table t = true ->
+  exists b, safe_encode (world3 d) (PStr t) incoming0 e errors = COk (PBytes b) /\
+            safe_decode (world3 d) (PBytes b) (Some e) errors = COk t.
+Proof. intros Ha Hl Hr. exact (world3_roundtrip d e CKoi8R t incoming0 errors Ha Hl Hr). Qed.
